@@ -25,7 +25,7 @@ CHECKS = {
  "C13": dict(tech="runtime monitor: metamorphic oracle across the 16 option sets built from the same entries",
              text="For every query, found(more stored information) implies found(less) with the same value within equal DedupValue; Complete finds exactly the retained keys; option spellings that normalise equally answer identically.",
              ref="3 C13"),
- "C14": dict(tech="runtime monitor: differential oracle GetI8/16/32/64 vs Get on full-range integer values",
+ "C14": dict(tech="runtime monitor: differential oracle GetI8/16/32/64 vs Get on full-range integer values; first typed reads of a fresh instance made by 8 goroutines at once",
              text="Typed getters are compared with Get (found flag and number) for every query of Q(K) on tries with min/max/-1/0/random values of each width, all option sets, de-duplicated and loaded tries.",
              ref="3 C14"),
  "C05": dict(tech="runtime monitors: byte-equality of repeated builds/marshals; battery-digest equality fresh vs loaded; sequential state-machine oracle over all Unmarshal/proto.Unmarshal/Reset histories of length <=3",
@@ -34,35 +34,35 @@ CHECKS = {
  "C06": dict(tech="runtime monitor: reference-map oracle over streams synthesised by validated legacy writer models (12 layouts) + the 97 archived fixtures; differential vs the source trie",
              text="Streams in every historical layout are produced for arbitrary generated key sets by writer models (re-validated against the 97 fixtures on each run), loaded, and checked against the reference model on every indexed key (Get, RangeGet, Search, KeyCnt), with the exact-map battery and scans for allpref streams, and query-by-query against the fresh trie a 0.5.10 stream was derived from.",
              ref="3 C06 and 2.5", note=" The legacy writers are models of historical code that is not in the repository; they reproduce all 97 archived fixtures."),
- "C07": dict(level="fault_enumeration", tech="fault enumeration at run time: every cut point of valid streams of every layout + a version-string list, observed through Unmarshal's result and an empty-behaviour battery; guard-paged read-only input buffers",
+ "C07": dict(level="fault_enumeration", tech="fault enumeration at run time: every cut point of valid streams of every layout + a version-string list (incl. numerically aliasing versions), observed through Unmarshal's result and an empty-behaviour battery; guard-paged read-only input buffers and short views of longer buffers; a load that never returns is a violation",
              text="For each valid stream every strict prefix (every byte offset for streams <=64 KiB) is handed to Unmarshal on an instance that holds other data: it must return an error without panicking and afterwards answer as an empty trie; every incompatible/malformed version string must be rejected with ErrIncompatible. Exhaustive over the cut points of the streams generated in the run.",
              ref="3 C07"),
- "C08": dict(tech="runtime monitor: error-identity oracle on injected order violations + C01 oracle on every accepted build of a run-length sweep across the step-width boundary",
+ "C08": dict(tech="runtime monitor: error-identity oracle on injected order violations + C01 oracle on every accepted build of a run-length sweep across the step-width boundary; accepted slices edited in place and resubmitted",
              text="Order violations injected at every position of short lists (seeded positions of long ones) must be rejected with ErrKeyOutOfOrder and a nil trie; valid lists within limits must be accepted; for single-branch runs of every swept length 0..70000 half-bytes (thorough 262145) at four placements and 16 option sets the build either errors with a nil trie or yields a trie (fresh and loaded) that finds every key.",
              ref="3 C08"),
- "C11": dict(tech="Go race detector over a stress workload of 2..32 reader goroutines on one shared instance + solo-vs-concurrent result equality + iterator interleaving oracle; overlap matrix from an atomic logical clock",
+ "C11": dict(tech="Go race detector over a stress workload of 2..32 reader goroutines on one shared instance + solo-vs-concurrent result equality + iterator interleaving oracle; overlap matrix from unsynchronised monotonic timestamps; background churn of unrelated builds/loads in the same process",
              text="All read APIs are driven concurrently from a barrier against one shared fresh/loaded/legacy-loaded instance under -race with randomized yielding and GOMAXPROCS 1/2/16; zero race reports with slim/low/protobuf frames, every result equal to its solo result, independent iterators yield their own sequences; evidence carries the API-pair overlap matrix and in-flight histogram actually observed.",
              ref="3 C11", note=" The race detector sees only races whose two accesses both execute in the run."),
- "C12": dict(tech="runtime monitor: exact-map oracle through a key-verifying DataReader (dense Get / sparse RangeGet)",
+ "C12": dict(tech="runtime monitor: exact-map oracle through a key-verifying DataReader (dense Get / sparse RangeGet), incl. record sets with 9/10-bit short-node tables, >65535 nodes and over-limit keys",
              text="SlimIndex.Get (one offset per key) and RangeGet (blocks of 1..64 keys sharing an offset) are compared with exact membership for every query of Q(K) through a reader that re-validates the key.",
              ref="3 C12"),
- "C15": dict(tech="runtime monitor: independent reference layouts compared on every value; exhaustive 8/16-bit (both tiers) and 32-bit (thorough), dense/boundary sampling otherwise",
+ "C15": dict(tech="runtime monitor: independent reference layouts compared on every value; exhaustive 8/16-bit (both tiers) and 32-bit (thorough), dense/boundary sampling otherwise; Encode results overwritten by the caller before re-encoding; concurrent replay on shared encoder objects",
              text="Encode/Decode/GetSize/GetEncodedSize of every encoder are compared with reference layouts written from the statement, with and without trailing bytes; exhaustive for I8/I16/U16 always and for I32/U32 in the thorough tier (every 13th value with random phase in quick).",
              ref="3 C15"),
  "C16": dict(tech="runtime monitor: Go-map oracle across typed/raw/generic accessors and proto round trips; constructor error identity on invalid inputs",
              text="Each generated sparse array is probed at every index of its bitmap span (or present indexes, neighbours and 10^4 random probes for large spans) through 8 accessor paths incl. after marshal/unmarshal into typed and generic types, and compared with a Go map; invalid index lists and length mismatches must be rejected with their dedicated errors and a nil array.",
              ref="3 C16"),
- "C17": dict(tech="runtime monitor: size-bound assertion and metamorphic (K, P+K) relation on marshalled sizes",
+ "C17": dict(tech="runtime monitor: size-bound assertion and metamorphic (K, P+K) relation on marshalled sizes, also after eight in-place reloads, in a process with background churn of all option spellings",
              text="For generated and adversarial key sets (caterpillars, long steps, fan-out 2..12/256, distinct bitmaps, 16 KiB keys) the filter-mode size must stay within 8|K|+256 bytes and prepending prefixes of 1..16000 bytes must change it by at most 16+ceil(|K|/64) bytes.",
              ref="3 C17"),
- "C18": dict(tech="runtime monitor: Stat consistency assertions against the reference model on fresh/loaded/proto-loaded instances (KeyCnt also on legacy-loaded streams in C06)",
-             text="KeyCnt equals the retained count, NodeCnt equals the last level total = inner+leaf, columns never decrease, (0,0)/(1,1) for empty/single, and Stat is unchanged by a marshal round trip, for every generated case under all 16 option sets.",
+ "C18": dict(tech="runtime monitor: Stat consistency assertions against the reference model on fresh/loaded/proto-loaded instances, per-level leaf counts cross-checked through GetID, reports of tries built concurrently compared with solo builds (KeyCnt also on legacy-loaded streams in C06)",
+             text="KeyCnt equals the retained count, NodeCnt equals the last level total = inner+leaf, columns never decrease, (0,0)/(1,1) for empty/single, Stat is unchanged by a marshal round trip, and every level holds exactly as many leaves as retained keys whose GetID lies in its id range, for every generated case under all 16 option sets; tries built and reloaded by six goroutines at once report what they report alone.",
              ref="3 C18"),
- "C19": dict(tech="runtime monitor: rendering parser (node ids exactly once, leaf lines in key order) + fresh-vs-loaded equality, workloads steered to every short-table size",
+ "C19": dict(tech="runtime monitor: rendering parser (node ids exactly once, leaf lines in key order) + fresh-vs-loaded equality, workloads steered to every short-table size; four goroutines rendering one trie at once",
              text="String() is called on tries steered to contain short-node tables of many sizes, 257-bit nodes and straddling short nodes; output is parsed line by line: ids 0..L-1 each once, leaf lines carry retained values in key order, loaded renders identically.",
              ref="3 C19"),
  "C20": dict(tech="runtime monitors: snapshot/scribble differential + mmap/mprotect guard-page sanitizer around caller-owned buffers",
-             text="Caller-owned keys, values and option struct are snapshotted around accepted and rejected builds; input and output buffers are overwritten (00/ff/noise) and answers re-compared; the stream and the key memory live in guard-paged mappings that are read-only during the call and inaccessible afterwards, so any store or retained alias faults recoverably.",
+             text="Caller-owned keys, values and option struct (alone, and as a window of a larger preset table with spare capacity) are snapshotted around accepted and rejected builds; value buffers handed through by pass-through encoders are overwritten after the build; input and output buffers are overwritten (00/ff/noise) and answers re-compared; the stream and the key memory live in guard-paged mappings that are read-only during the call and inaccessible afterwards, so any store or retained alias faults recoverably.",
              ref="3 C20"),
 }
 
